@@ -29,6 +29,9 @@ func runRegScript(script string) (string, *fw.OracleFailure) {
 		for _, c := range conns {
 			c.Close()
 		}
+		if phones["z"] != nil { // the fixed key must be free again before the next script uses it
+			srv.WaitForFrom(mark, func(e sock.Event) bool { return false }, 60*time.Millisecond)
+		}
 	}()
 	var out []string
 	var orc *fw.OracleFailure
@@ -48,6 +51,9 @@ func runRegScript(script string) (string, *fw.OracleFailure) {
 			i, k := parts[0], parts[1]
 			if phones[k] == nil {
 				phones[k] = actNextPhone()
+				if k == "z" { // the all-zero phone number: its key is the only default key that starts with '0'
+					phones[k] = []byte{0, 0, 0, 0, 0, 0}
+				}
 			}
 			c, err := sock.Dial(srv.Addr())
 			if err != nil {
@@ -175,6 +181,8 @@ func genRegScripts(r *fw.Rng, n int) []string {
 		"J0:a,J1:b,Sa,Sb,X0,Sa,Sb,X1,Sb",
 		"J0:a,J1:a,J2:a,Sa,X0,J3:a,Sa",
 		"Sa,J0:a,X0,Sa",
+		"J0:z,Sz,J1:z,Sz,X0,Sz",
+		"J0:z,J1:a,Sz,Sa,X0,Sz,Sa",
 	}
 	for len(out) < n {
 		var toks []string
